@@ -25,6 +25,17 @@ def es_part(out, prop, tier, jobs, only, assumptions, functions, bounds):
         return base
     for j in jobs:
         j[2].setdefault('seed', seed())
+    if tier == 'thorough':
+        # the jobs of the quick catalogue are obligations of the claim in both tiers; everything the thorough tier adds is
+        # exploration beyond it: an undischarged relation or an unfinished job there is recorded, not claimed and does not
+        # make the run inconclusive (a natively reproduced deviation is a violation in either case)
+        try:
+            qnames = set(j[0] for j in getattr(es, 'jobs_' + prop)('quick', seed()))
+        except Exception:
+            qnames = set()
+        for j in jobs:
+            if j[0] not in qnames:
+                j[2]['soft'] = True
     results = es.run_jobs(jobs)
     # robustness against timeout-dependent proofs: jobs with an undischarged in-scope obligation (and no native
     # deviation) are run once more with another evaluation seed and doubled solver timeouts
@@ -37,7 +48,7 @@ def es_part(out, prop, tier, jobs, only, assumptions, functions, bounds):
         for r in res['rels']:
             oid = '%s::%s' % (res['name'], r['name'])
             w = r.get('native_worst')
-            if not r['proved'] and oid not in scope.get('outside_reach', {}) and not (w is not None and w['dev'] > tol):
+            if not r['proved'] and oid not in scope.get('outside_reach', {}) and not (w is not None and w['dev'] > tol) and not res['opts'].get('soft'):
                 redo.append(i); break
     if redo:
         again = []
